@@ -7,7 +7,8 @@ CONSTANTS
   TagCounts = {0, 1}
   LeafMode = "series"
   Shape = "leaf"
+  SkipName = TRUE
   PredKeys <- Plain
   PredVals <- Plain
-INVARIANTS KeyRoundTrips ModelAgreesUnlessMeasEq
+INVARIANTS KeyRoundTrips ModelAgrees
 CHECK_DEADLOCK FALSE
